@@ -260,6 +260,9 @@ func c13Run(c *core.Ctx) {
 			if len(s) > 600 {
 				d = depth + 1 // the long-token programs: one level less (every history replays the whole program)
 			}
+			if d > 5 {
+				d = 5 // 5^6 histories of one tree in one worker exceeded the 3 GB heap backstop in the thorough tier
+			}
 			c13Tree(c, []byte(s), v, d, nil)
 		}
 	}
@@ -295,7 +298,7 @@ var c13Extra = []string{
 func init() {
 	register(&core.Check{
 		Prop: "C13", Level: "exploration", Exhaust: true, QuickSecs: 300, ThorSecs: 2400,
-		Rule: "for the tree of every rule-level and 2-path E-lr program of both grammars ( with and without trivia; trees returned with errors included) and of ten hand-written resolver/interpolation/error programs: every sequence over {print, dump+tokens+positions, dump, traverse(Null), resolve} of length <= 3 (quick) / <= 4 (thorough); the ten extras two deeper, explored depth-first by replaying the path on a freshly parsed tree; plus every single-import program of the name-resolution model (226 k programs) with resolve followed by resolve, print and dump. " +
+		Rule: "for the tree of every rule-level and 2-path E-lr program of both grammars ( with and without trivia; trees returned with errors included) and of ten hand-written resolver/interpolation/error programs: every sequence over {print, dump+tokens+positions, dump, traverse(Null), resolve} of length <= 3 (quick) / <= 4 (thorough); the extras two deeper (at most 5), explored depth-first by replaying the path on a freshly parsed tree; plus every single-import program of the name-resolution model (226 k programs) with resolve followed by resolve, print and dump. " +
 			"Oracle after every step: the step's output equals the same operation's output on a fresh tree, and a deep reflection snapshot (all fields, slice lengths and capacities, pointer-graph shape, token bytes) equals the snapshot of the fresh tree; also two parses of the same input give equal snapshots. states = distinct snapshots seen (must equal trees), transitions = operation applications judged. non-trivial = a tree was returned; distinct by (version, source)",
 		Assume: []string{"a panic inside an operation is an output like any other (it must then panic identically on a fresh tree)"},
 		Run:    c13Run,
